@@ -723,10 +723,12 @@ def unpack_dataclass(spec: ValueSpec) -> Optional[Expression]:
             )
             != method_name
         ):
+            # the expression below calls the nested class's main method, so that is
+            # what must exist; a dialect is handled by that method at run time
             builder = spec.builder.__class__(
                 spec.origin_type,
                 type_args,
-                dialect=spec.builder.dialect,
+                dialect=None,
                 format_name=spec.builder.format_name,
                 default_dialect=spec.builder.default_dialect,
                 attrs=method_loc,
